@@ -21,6 +21,18 @@ Proof.
             | Some r => sample rtte_default r | None => Some rtte_default end) as [rtte0|]; [|reflexivity].
   destruct (vc_incoming c); rewrite ?sh16_wadd16, ?sh16_wsub16; reflexivity.
 Qed.
+
+(* the two runs of the metamorphic check, from their construction parameters: the second run is built
+   from the relabelled parameters and fed the relabelled events *)
+Theorem model_runs_shift_ok (mk_cc : Z -> Z -> CC) c ops s :
+  vsock_new cci mk_cc c = Some s -> c09_guard_trace cci s ops = true ->
+  exists s2, vsock_new cci mk_cc (shift_config da db dc c) = Some s2 /\
+             c09_shift_ok da db dc (ftrace cci s ops) (ftrace cci s2 (map (shift_op da db) ops)) = true.
+Proof.
+  intros E G. exists (shift_vsock da db dc s). split.
+  - now rewrite vsock_new_shift, E.
+  - now apply model_trace_shift_ok.
+Qed.
 End New.
 
 (* ------------------------------------------------------------------ non-vacuity *)
